@@ -422,3 +422,163 @@ func TestReplay(t *testing.T) { vf.ReplayEnv(t) }
 
 // native fuzz targets (thorough tier): the fuzzer mutates the byte stream that rapid decodes into generator choices
 func FuzzAPI(f *testing.F) { vf.FuzzNamed(f, "C04", "api") }
+
+// ---- MaxSAT with real search inside: soft pigeonhole, optimum known by construction -----------------------
+
+// SoftPHP: holes+1 pigeons; "pigeon p sits somewhere" is a soft clause of weight W[p] (or, with AtMost set, the hole
+// capacities are hard cardinality constraints instead of pairwise clauses); sharing a hole is forbidden (hard).
+// Exactly one pigeon has to be given up: the optimum is the smallest weight, and proving it refutes a pigeonhole
+// formula (hundreds to thousands of conflicts, restarts, reductions) after the first models were found.
+type SoftPHP struct {
+	Holes  int    `json:"holes"`
+	W      []int  `json:"w"`
+	AtMost bool   `json:"at_most"` // api only: one cardinality constraint per hole instead of pairwise clauses
+	Via    string `json:"via"`     // api | wcnf-nil | wcnf-chan
+}
+
+func checkSoftPHP(c SoftPHP, o *vf.Obs) error {
+	gs.Arm(0, 400_000_000)
+	defer gs.Arm(0, 0)
+	holes, pigeons := c.Holes, c.Holes+1
+	n := pigeons * holes
+	v := func(p, h int) int { return p*holes + h + 1 }
+	want := c.W[0]
+	for _, w := range c.W {
+		if w < want {
+			want = w
+		}
+	}
+	o.Class("via-" + c.Via)
+	o.Class(fmt.Sprintf("holes-%d", holes))
+	o.Nontrivial()
+	seated := func(val func(x int) bool) (cost int, err error) {
+		for h := 0; h < holes; h++ {
+			k := 0
+			for p := 0; p < pigeons; p++ {
+				if val(v(p, h)) {
+					k++
+				}
+			}
+			if k > 1 {
+				return 0, fmt.Errorf("the returned assignment puts %d pigeons in hole %d: a hard constraint is violated", k, h)
+			}
+		}
+		for p := 0; p < pigeons; p++ {
+			sits := false
+			for h := 0; h < holes; h++ {
+				if val(v(p, h)) {
+					sits = true
+				}
+			}
+			if !sits {
+				cost += c.W[p]
+			}
+		}
+		return cost, nil
+	}
+	if c.Via == "api" {
+		var cs []maxsat.Constr
+		for p := 0; p < pigeons; p++ {
+			var lits []maxsat.Lit
+			for h := 0; h < holes; h++ {
+				lits = append(lits, maxsat.Var(name(v(p, h))))
+			}
+			cs = append(cs, maxsat.Constr{Lits: lits, AtLeast: 1, Weight: c.W[p]})
+		}
+		for h := 0; h < holes; h++ {
+			if c.AtMost {
+				var lits []maxsat.Lit
+				for p := 0; p < pigeons; p++ {
+					lits = append(lits, maxsat.Not(name(v(p, h))))
+				}
+				cs = append(cs, maxsat.Constr{Lits: lits, AtLeast: pigeons - 1})
+				continue
+			}
+			for p := 0; p < pigeons; p++ {
+				for q := p + 1; q < pigeons; q++ {
+					cs = append(cs, maxsat.Constr{Lits: []maxsat.Lit{maxsat.Not(name(v(p, h))), maxsat.Not(name(v(q, h)))}, AtLeast: 1})
+				}
+			}
+		}
+		model, cost := maxsat.New(cs...).Solve()
+		if model == nil {
+			return fmt.Errorf("nil model (cost %d) although the hard constraints are satisfiable (optimum %d by construction)", cost, want)
+		}
+		if len(model) != n {
+			return fmt.Errorf("the model binds %d names, the problem has %d variables", len(model), n)
+		}
+		got, err := seated(func(x int) bool { return model[name(x)] })
+		if err != nil {
+			return err
+		}
+		if got != cost || cost != want {
+			return fmt.Errorf("reported cost %d, weight of the soft constraints the model violates %d, optimum %d by construction (weights %v)", cost, got, want, c.W)
+		}
+		return nil
+	}
+	var sb strings.Builder
+	top := 1
+	for _, w := range c.W {
+		top += w
+	}
+	fmt.Fprintf(&sb, "p wcnf %d %d %d\n", n, pigeons+holes*pigeons*(pigeons-1)/2, top)
+	for p := 0; p < pigeons; p++ {
+		fmt.Fprintf(&sb, "%d", c.W[p])
+		for h := 0; h < holes; h++ {
+			fmt.Fprintf(&sb, " %d", v(p, h))
+		}
+		sb.WriteString(" 0\n")
+	}
+	for h := 0; h < holes; h++ {
+		for p := 0; p < pigeons; p++ {
+			for q := p + 1; q < pigeons; q++ {
+				fmt.Fprintf(&sb, "%d -%d -%d 0\n", top, v(p, h), v(q, h))
+			}
+		}
+	}
+	s, err := maxsat.ParseWCNF(strings.NewReader(sb.String()))
+	if err != nil {
+		return fmt.Errorf("ParseWCNF rejects a well-formed text: %v", err)
+	}
+	var res solver.Result
+	if c.Via == "wcnf-chan" {
+		ch := make(chan solver.Result)
+		done := make(chan struct{})
+		go func() {
+			for range ch {
+			}
+			close(done)
+		}()
+		res = s.Optimal(ch, nil)
+		<-done
+	} else {
+		res = s.Optimal(nil, nil)
+	}
+	if res.Status != solver.Sat {
+		return fmt.Errorf("Optimal = %v although the hard clauses are satisfiable (optimum %d by construction)", res.Status, want)
+	}
+	if len(res.Model) != n {
+		return fmt.Errorf("the model has %d values, the file declares %d variables", len(res.Model), n)
+	}
+	got, err := seated(func(x int) bool { return res.Model[x-1] })
+	if err != nil {
+		return err
+	}
+	if got != res.Weight || res.Weight != want {
+		return fmt.Errorf("reported cost %d, weight of the soft clauses the model violates %d, optimum %d by construction (weights %v)", res.Weight, got, want, c.W)
+	}
+	return nil
+}
+
+func genSoftPHP(t *rapid.T) SoftPHP {
+	c := SoftPHP{Holes: rapid.SampledFrom([]int{5, 6, 6, 7}).Draw(t, "holes"), Via: rapid.SampledFrom([]string{"api", "api", "wcnf-nil", "wcnf-chan"}).Draw(t, "via"), AtMost: rapid.Bool().Draw(t, "atMost")}
+	for p := 0; p <= c.Holes; p++ {
+		c.W = append(c.W, rapid.IntRange(1, 6).Draw(t, "w"))
+	}
+	return c
+}
+
+func init() {
+	vf.Register(vf.Sub[SoftPHP]{Name: "soft-pigeonhole", Quick: 10, Thorough: 100, Gen: genSoftPHP, Check: checkSoftPHP, Floor: 0.9,
+		Rule: "holes+1 pigeons in 5..7 holes: seating pigeon p is a soft clause of weight W[p] in 1..6, sharing a hole is forbidden by hard clauses (or by one hard cardinality constraint per hole); through maxsat.New(...).Solve() and through ParseWCNF + Optimal(nil) / Optimal(chan); the optimum is the smallest weight by construction and proving it takes hundreds to thousands of conflicts (restarts, reductions) after the first models were found; asserted: model over exactly the problem's variables, hard constraints satisfied, reported cost = weight of the violated soft clauses = optimum"})
+}
